@@ -4,35 +4,31 @@ From Coq Require Import Lia.
 
 Definition s_uuid : str := [117;117;105;100].
 
-(* F03a: the format table sends "uuid" (and "time") to a type the converter has no hook for *)
-Lemma refuted_F03a :
-  In s_uuid (map fst format_map) /\ ty_has_unhooked (resolve_format s_uuid) = true /\
-  ty_ok (resolve_format s_uuid) = false.
-Proof. vm_compute. repeat split; auto 12. Qed.
-
-(* every other entry of the (regenerated) table resolves to a supported type *)
-Lemma formats_supported_table :
-  forallb (fun f => ty_has_unhooked (resolve_format f) || ty_ok (resolve_format f)) (map fst format_map) = true.
-Proof. vm_compute. reflexivity. Qed.
-
-Lemma formats_supported : forall fmt,
-  ty_has_unhooked (resolve_format fmt) = false -> ty_ok (resolve_format fmt) = true.
+(* every entry of the (regenerated) table, and the default for a format that is not in it, resolves to a
+   type the converter has hooks for and the C16 round-trip theorem covers *)
+Lemma formats_supported : forall fmt, ty_ok (resolve_format fmt) = true.
 Proof.
-  intros fmt Hg. unfold resolve_format in *.
+  intro fmt. unfold resolve_format.
   destruct (alookup fmt format_map) as [t|] eqn:E.
-  - (* in the table: the python type names that occur are finitely many *)
-    assert (Ht : In t (map snd format_map)).
-    { clear Hg. revert E. generalize format_map. induction l as [|[k v] l IH]; cbn [alookup]; [discriminate|].
+  - assert (Ht : In t (map snd format_map)).
+    { revert E. generalize format_map. induction l as [|[k v] l IH]; cbn [alookup]; [discriminate|].
       destruct (str_eqb fmt k); intro H; [inversion H; left; reflexivity | right; apply IH; exact H]. }
-    assert (Hall : forallb (fun t => ty_has_unhooked (py_type_ty t) || ty_ok (py_type_ty t)) (map snd format_map) = true)
+    assert (Hall : forallb (fun t => ty_ok (py_type_ty t)) (map snd format_map) = true)
       by (vm_compute; reflexivity).
-    rewrite forallb_forall in Hall. specialize (Hall t Ht). rewrite Hg in Hall. exact Hall.
+    rewrite forallb_forall in Hall. exact (Hall t Ht).
   - vm_compute. reflexivity.
 Qed.
 
-Lemma formats_nonvacuous : exists fmt, In fmt (map fst format_map) /\ ty_has_unhooked (resolve_format fmt) = false
-                                       /\ resolve_format fmt = TDatetime.
-Proof. exists [100;97;116;101;45;116;105;109;101]. vm_compute. repeat split; auto 12. Qed.
+(* F03a (fixed): "uuid" and "time" still resolve to UUID / time, which now are supported leaf types *)
+Lemma regression_F03a :
+  resolve_format s_uuid = TUuid /\ resolve_format [116;105;109;101] = TTime /\
+  ty_ok (resolve_format s_uuid) = true /\ ty_ok (resolve_format [116;105;109;101]) = true.
+Proof. vm_compute. repeat split. Qed.
+
+(* F03c (fixed): a self reference through an array is an ordinary list of the class for the converter *)
+Lemma regression_F03c : forall c,
+  resolve (PArr (PSelf c)) = TList (TData c) /\ ty_ok (resolve (PArr (PSelf c))) = true.
+Proof. intro c. split; reflexivity. Qed.
 
 (* ======================================================================================
    Meta maps of a generated class are mutually inverse bijections
